@@ -55,14 +55,18 @@ package xlsx
 //@   callsite WriteString(s) requires cell_or_structure: s == "|" || s == " " || s == " |" || s == "\n" || s == "---|" || (forall k int :: {s[k]} 0 <= k && k < len(s) ==> s[k] != 10 && (s[k] == '|' ==> k >= 1 && s[k-1] == 92))
 
 // ---- C18: worksheets are presented in workbook order ----
+// (C02) the dense grids of ALL sheets together stay within the workbook budget: a sheet is kept only while the
+// running total of grid cells is within maxWorkbookCells
 //@ func (*Reader) parseWorksheets results (err)
-//@   property C18
+//@   property C18, C02
 //@   ensures workbook_unchanged: r.workbook == old(r.workbook)
 //@   ensures count: !err ==> len(r.sheets) <= len(r.workbook.Sheets.Sheet) && len(r.sheets) > 0
 //@   ensures workbook_order: !err ==> forall a int, b int :: {r.sheets[a], r.sheets[b]} 0 <= a && a < b && b < len(r.sheets) ==> r.sheets[a].Index < r.sheets[b].Index
 //@   ensures declared_names: !err ==> forall k int :: {r.sheets[k]} 0 <= k && k < len(r.sheets) ==> 0 <= r.sheets[k].Index && r.sheets[k].Index < len(r.workbook.Sheets.Sheet) && r.sheets[k].Name == r.workbook.Sheets.Sheet[r.sheets[k].Index].Name
 //@   loop 0:
 //@     invariant r.workbook == old(r.workbook) && len(r.sheets) <= $i
+//@     invariant all_grids_within_the_workbook_budget: totalCells <= maxWorkbookCells
+//@     step kept_sheet_is_charged_to_the_budget: len(r.sheets) > prev(len(r.sheets)) ==> totalCells == prev(totalCells) + len(r.sheets[len(r.sheets)-1].Rows) * (r.sheets[len(r.sheets)-1].MaxCol + 1)
 //@     invariant forall a int, b int :: {r.sheets[a], r.sheets[b]} 0 <= a && a < b && b < len(r.sheets) ==> r.sheets[a].Index < r.sheets[b].Index
 //@     invariant forall k int :: {r.sheets[k]} 0 <= k && k < len(r.sheets) ==> 0 <= r.sheets[k].Index && r.sheets[k].Index < $i && r.sheets[k].Name == r.workbook.Sheets.Sheet[r.sheets[k].Index].Name
 
